@@ -126,8 +126,13 @@ class ListTrash:
             except ParseError:
                 yield Error(self.print_parse_path_error(trashinfo_path))
             else:
-                attribute = extractor.extract_attribute(trashinfo_path,
-                                                        contents)
+                try:
+                    attribute = extractor.extract_attribute(trashinfo_path,
+                                                            contents)
+                except OSError as e:
+                    # --size of an entry whose payload is missing
+                    yield Error(str(e))
+                    return
                 original_location = os.path.join(volume, relative_location)
 
                 if show_files:
